@@ -82,7 +82,7 @@ def main(tier, replay=None):
         if kind != "Tuple":
             bad += PUSH_BAD
         if kind == "Tuple":
-            bad += ["resize_grow"]
+            bad += ["resize_grow", "assign_strtable"]
         if kind == "Array":
             bad += ["resize_huge", "resize_wrap"]
         for et, vals in (("Int", [0, 3, 7, 11]), ("String", [b"", b"x%d", b"%$", b"\xfe"]), ("Probe", [0, 1, 2, 3])):
